@@ -26,7 +26,7 @@ SetOf(s) == {s[k] : k \in 1..Len(s)}
 TraceInit == Init /\ l = 1
 
 IsEvent(e) == l <= Len(Log) /\ Log[l].ev = e /\ l' = l + 1
-Machine == UNCHANGED <<conns, tw, ver, keeps, cfg>>
+Machine == UNCHANGED <<conns, tw, ver, cache, cver, keeps, cfg>>
 
 TraceReset == /\ IsEvent("reset")
               /\ now' = 0 /\ rules' = SetOf(Log[l].rules)
